@@ -5,7 +5,8 @@ from . import spec
 
 
 def rng_for(seed, *salt):
-    return np.random.default_rng([int(seed) & 0xffffffff] + [abs(hash(str(s))) & 0xffffffff for s in salt])
+    import zlib
+    return np.random.default_rng([int(seed) & 0xffffffff] + [zlib.crc32(str(s).encode()) & 0xffffffff for s in salt])
 
 
 def extents_for_block(rng, b, small_cap=None):
